@@ -53,15 +53,32 @@ Proof. intros Hf Hn E. apply Hf. apply is_pseudo_spec. rewrite E. auto. Qed.
 
 (** * Trailers *)
 
-(** the sendable entries of the trailer map are tokens with legal values *)
-Definition tmap_ok (t : gomap) : Prop :=
-  forall k vs, In (k, vs) t -> valid_to_send k = true ->
-  token_ok k = true /\ Forall (fun v => value_ok v = true) vs.
+Lemma lower_token_inv k : token_ok (lower_bytes k) = true -> token_ok k = true.
+Proof.
+  unfold token_ok. intros H. apply andb_true_iff in H as [Hne Ha]. apply andb_true_iff. split.
+  - destruct k; [discriminate|reflexivity].
+  - apply forallb_forall. intros b Hb. rewrite forallb_forall in Ha.
+    specialize (Ha (lower_byte b) (in_map lower_byte _ _ Hb)).
+    unfold lower_byte in Ha. destruct (is_uc b) eqn:Eu; auto.
+    unfold is_uc in Eu. apply andb_true_iff in Eu as [E1 E2]. apply Z.leb_le in E1, E2.
+    assert (A : forallb (fun b => implb ((65 <=? b) && (b <=? 90)) (tbl h3TokenTable b)) all_bytes = true) by (vm_compute; reflexivity).
+    assert (Hr : 0 <= b < 256) by lia. apply (byte_forall _ A) in Hr.
+    replace ((65 <=? b) && (b <=? 90)) with true in Hr; auto.
+    symmetry. apply andb_true_iff. split; apply Z.leb_le; lia.
+Qed.
+
+Lemma valid_to_send_facts k :
+  valid_to_send k = true ->
+  token_ok k = true /\ valid_trailer k = true /\ mem (lower_bytes k) conn_specific = false.
+Proof.
+  unfold valid_to_send. intros H. apply andb_true_iff in H as [H Ht]. apply andb_true_iff in H as [Hv Hc].
+  apply negb_true_iff in Hc. split; auto. apply lower_token_inv; auto.
+Qed.
 
 Lemma trailer_entry_wf k v :
-  token_ok k = true -> value_ok v = true -> valid_to_send k = true -> trailer_field_wf (F (lower_bytes k) v).
+  value_ok v = true -> valid_to_send k = true -> trailer_field_wf (F (lower_bytes k) v).
 Proof.
-  intros Ht Hv Hs. unfold valid_to_send in Hs. apply andb_true_iff in Hs as [Hvt Hc]. apply negb_true_iff in Hc.
+  intros Hv Hs. destruct (valid_to_send_facts _ Hs) as (Ht & Hvt & Hc).
   destruct (lower_token _ Ht) as [Ht' Hlo].
   rewrite <- (valid_trailer_lower _ Ht) in Hvt.
   destruct (valid_trailer_spec _ Ht' Hvt) as [V1 V2].
@@ -74,65 +91,98 @@ Qed.
 Lemma write_trailers_fields t fs :
   write_trailers t = Some fs ->
   fs = flat_map trailer_entry_fields t /\
-  exists k v vs, In (k, v :: vs) t /\ valid_to_send k = true.
+  exists k vs v, In (k, vs) t /\ In v vs /\ value_ok v = true /\ valid_to_send k = true.
 Proof.
   unfold write_trailers. destruct (existsb _ t) eqn:E; [|discriminate]. intros H; inversion H. split; auto.
   apply existsb_exists in E as ([k vs] & Hin & Hc). cbn [fst snd] in Hc.
-  apply andb_true_iff in Hc as [Hs Hne]. destruct vs as [|v vs]; [discriminate|]. eauto.
+  apply andb_true_iff in Hc as [Hs Hne]. apply existsb_exists in Hne as (v & Hv & Hvo). eauto 10.
 Qed.
 
+(** Whatever trailer map a handler or caller provides — no hygiene assumed —, a written trailer
+    section is non-empty, accepted by parseTrailers and decodes to the same fields. *)
 Theorem trailers_agree t fs lim :
-  write_trailers t = Some fs -> tmap_ok t -> section_size fs <= lim ->
+  write_trailers t = Some fs -> section_size fs <= lim ->
   fs <> [] /\ parseTrailers lim fs false = inr (trailers_of fs).
 Proof.
-  intros Hw Hok Hsz. apply write_trailers_fields in Hw as (-> & k & v & vs & Hin & Hs). split.
+  intros Hw Hsz. apply write_trailers_fields in Hw as (-> & k & vs & v & Hin & Hv & Hvo & Hs). split.
   - intros E. assert (Hf : In (F (lower_bytes k) v) (flat_map trailer_entry_fields t)).
-    { apply in_flat_map. exists (k, v :: vs). split; auto. unfold trailer_entry_fields. cbn [fst snd]. rewrite Hs. left. reflexivity. }
+    { apply in_flat_map. exists (k, vs). split; auto. unfold trailer_entry_fields. cbn [fst snd]. rewrite Hs.
+      apply in_map. apply filter_In. auto. }
     rewrite E in Hf. contradiction.
   - apply parseTrailers_complete. split; auto. apply Forall_forall. intros f Hf.
     apply in_flat_map in Hf as ([k' vs'] & Hin' & Hf). unfold trailer_entry_fields in Hf. cbn [fst snd] in Hf.
     destruct (valid_to_send k') eqn:Hs'; [|contradiction].
-    apply in_map_iff in Hf as (v' & <- & Hv').
-    destruct (Hok _ _ Hin' Hs') as [Ht Hvs]. rewrite Forall_forall in Hvs. apply trailer_entry_wf; auto.
+    apply in_map_iff in Hf as (v' & <- & Hv'). apply filter_In in Hv' as [_ Hvo']. apply trailer_entry_wf; auto.
 Qed.
 
-(** the emit / no-emit decision: nothing is written exactly when no sendable trailer has a value *)
+(** the emit / no-emit decision: nothing is written exactly when no sendable trailer has a sendable value *)
 Theorem trailers_none t :
-  write_trailers t = None <-> (forall k vs, In (k, vs) t -> valid_to_send k = true -> vs = []).
+  write_trailers t = None <->
+  (forall k vs v, In (k, vs) t -> valid_to_send k = true -> In v vs -> value_ok v = false).
 Proof.
   unfold write_trailers. split.
-  - destruct (existsb _ t) eqn:E; [discriminate|]. intros _ k vs Hin Hs.
-    destruct vs as [|v vs]; auto. exfalso.
-    assert (existsb (fun e => valid_to_send (fst e) && negb (match snd e with [] => true | _ => false end)) t = true).
-    { apply existsb_exists. exists (k, v :: vs). split; auto. cbn [fst snd]. rewrite Hs. reflexivity. }
+  - destruct (existsb _ t) eqn:E; [discriminate|]. intros _ k vs v Hin Hs Hv.
+    destruct (value_ok v) eqn:Hvo; auto. exfalso.
+    assert (existsb (fun e => valid_to_send (fst e) && existsb value_ok (snd e)) t = true).
+    { apply existsb_exists. exists (k, vs). split; auto. cbn [fst snd]. rewrite Hs. cbn [andb].
+      apply existsb_exists. eauto. }
     congruence.
   - intros H. destruct (existsb _ t) eqn:E; auto. exfalso.
     apply existsb_exists in E as ([k vs] & Hin & Hc). cbn [fst snd] in Hc.
-    apply andb_true_iff in Hc as [Hs Hne]. rewrite (H _ _ Hin Hs) in Hne. discriminate.
+    apply andb_true_iff in Hc as [Hs Hne]. apply existsb_exists in Hne as (v & Hv & Hvo).
+    rewrite (H _ _ _ Hin Hs Hv) in Hvo. discriminate.
 Qed.
 
 (** * Responses *)
 
-Definition rsp_hdr_ok (h : gomap) : Prop :=
-  forall k vs, In (k, vs) h -> has_prefix trailer_prefix k = false ->
-  token_ok k = true /\ Forall (fun v => value_ok v = true) vs.
-
-Definition rsp_cl_ok (h : gomap) : Prop :=
-  exists c, numeric c /\ dec_value c < 2 ^ 63 /\
-  forall k vs v, In (k, vs) h -> lower_bytes k = n_content_length -> In v vs -> v = c.
-
 Lemma rsp_entry_in d e f :
   In f (rsp_entry_fields d e) ->
   has_prefix trailer_prefix (fst e) = false /\ mem (lower_bytes (fst e)) conn_specific = false /\
-  exists v, In v (snd e) /\ f = F (lower_bytes (fst e)) v /\ (lower_bytes (fst e) = n_te -> v = v_trailers).
+  token_ok (fst e) = true /\
+  exists v, In v (snd e) /\ f = F (lower_bytes (fst e)) v /\ value_ok v = true /\
+            (lower_bytes (fst e) = n_te -> v = v_trailers) /\
+            (lower_bytes (fst e) = n_content_length -> exists c, parse_uint63 v = Some c).
 Proof.
   unfold rsp_entry_fields. destruct (mem (fst e) d); [contradiction|].
   destruct (has_prefix trailer_prefix (fst e)); [contradiction|].
   destruct (mem (lower_bytes (fst e)) conn_specific); [contradiction|].
-  intros H. apply in_flat_map in H as (v & Hv & Hf). split; auto. split; auto. exists v. split; auto.
+  destruct (token_ok (lower_bytes (fst e))) eqn:Et; cbn [negb]; [|contradiction].
+  intros H. apply in_flat_map in H as (v & Hv & Hf). split; auto. split; auto.
+  split; [apply lower_token_inv; auto|]. exists v. split; auto.
   destruct (beq (lower_bytes (fst e)) n_te && negb (beq v v_trailers)) eqn:E; [contradiction|].
-  destruct Hf as [<-|[]]. split; auto. intros Hn. rewrite Hn, beq_refl in E. cbn [andb] in E.
-  apply negb_false_iff, beq_eq in E. exact E.
+  destruct (value_ok v) eqn:Evo; cbn [negb] in Hf; [|contradiction].
+  destruct (beq (lower_bytes (fst e)) n_content_length && match parse_uint63 v with None => true | Some _ => false end) eqn:Ec; [contradiction|].
+  destruct Hf as [<-|[]]. split; auto. split; auto. split.
+  - intros Hn. rewrite Hn, beq_refl in E. cbn [andb] in E. apply negb_false_iff, beq_eq in E. exact E.
+  - intros Hn. rewrite Hn, beq_refl in Ec. cbn [andb] in Ec. destruct (parse_uint63 v); [eauto|discriminate].
+Qed.
+
+Lemma keep_first_cl_in s l f : In f (keep_first_cl s l) -> In f l.
+Proof.
+  revert s. induction l as [|g r IH]; intros s H; [contradiction|]. cbn [keep_first_cl] in H.
+  destruct (beq (fname g) n_content_length); [destruct s|].
+  - right. eapply IH; eauto.
+  - destruct H as [<-|H]; [left; auto|right; eapply IH; eauto].
+  - destruct H as [<-|H]; [left; auto|right; eapply IH; eauto].
+Qed.
+
+Lemma keep_first_cl_seen l f : In f (keep_first_cl true l) -> fname f <> n_content_length.
+Proof.
+  induction l as [|g r IH]; intros H; [contradiction|]. cbn [keep_first_cl] in H.
+  destruct (beq (fname g) n_content_length) eqn:E; [auto|].
+  destruct H as [<-|H]; [apply beq_neq; auto|auto].
+Qed.
+
+(** after the pass all content-length fields are one and the same field *)
+Lemma keep_first_cl_single l f g :
+  In f (keep_first_cl false l) -> In g (keep_first_cl false l) ->
+  fname f = n_content_length -> fname g = n_content_length -> f = g.
+Proof.
+  induction l as [|x r IH]; intros Hf Hg Ef Eg; [contradiction|]. cbn [keep_first_cl] in Hf, Hg.
+  destruct (beq (fname x) n_content_length) eqn:E.
+  - destruct Hf as [<-|Hf]; [|exfalso; eapply keep_first_cl_seen; eauto].
+    destruct Hg as [<-|Hg]; [reflexivity|exfalso; eapply keep_first_cl_seen; eauto].
+  - apply beq_neq in E. destruct Hf as [<-|Hf]; [contradiction|]. destruct Hg as [<-|Hg]; [contradiction|]. auto.
 Qed.
 
 Lemma status_field_wf status : 100 <= status <= 999 -> field_wf false (F (bs ":status") (itoa status)).
@@ -145,42 +195,50 @@ Proof.
   - intros Hn. exfalso. apply Hn. exists (bs "status"). reflexivity.
 Qed.
 
+(** *** Writer and parser agree on responses, for EVERY header map a handler can leave behind
+    (no hygiene assumed: writeHeader sanitises): the emitted section is accepted with the same status. *)
 Theorem response_agree status h lim :
-  100 <= status <= 999 -> rsp_hdr_ok h -> rsp_cl_ok h -> section_size (rsp_fields status h) <= lim ->
+  100 <= status <= 999 -> section_size (rsp_fields status h) <= lim ->
   exists r, updateResponseFromHeaders lim (rsp_fields status h) false = inr r /\
             rsCode r = status /\ rsCL r = hCL (hdr_of (rsp_fields status h)).
 Proof.
-  intros Hs Hok (c & Hcn & Hcf & Hcl) Hsz.
+  intros Hs Hsz.
   assert (Hr : 0 <= status < 2 ^ 63) by (change (2 ^ 63) with 9223372036854775808; lia).
-  set (rest := flat_map (rsp_entry_fields (declared_trailers h)) h).
+  set (raw := flat_map (rsp_entry_fields (declared_trailers h)) h).
+  set (rest := keep_first_cl false raw).
   assert (Hfs : rsp_fields status h = [F (bs ":status") (itoa status)] ++ rest) by reflexivity.
-  (* every field of the map-driven part *)
-  assert (Hrest : forall f, In f rest -> exists k vs v, In (k, vs) h /\ In v vs /\ f = F (lower_bytes k) v /\
+  assert (Hraw : forall f, In f raw -> exists k v, f = F (lower_bytes k) v /\
             token_ok k = true /\ value_ok v = true /\ mem (lower_bytes k) conn_specific = false /\
-            (lower_bytes k = n_te -> v = v_trailers)).
+            (lower_bytes k = n_te -> v = v_trailers) /\
+            (lower_bytes k = n_content_length -> exists c, parse_uint63 v = Some c)).
   { intros f Hf. apply in_flat_map in Hf as ([k vs] & Hin & Hf).
-    apply rsp_entry_in in Hf as (Hp & Hc & v & Hv & -> & Hte). cbn [fst snd] in *.
-    destruct (Hok _ _ Hin Hp) as [Ht Hvs]. rewrite Forall_forall in Hvs.
-    exists k, vs, v. repeat split; auto. }
+    apply rsp_entry_in in Hf as (Hp & Hc & Ht & v & Hv & -> & Hvo & Hte & Hcl). cbn [fst snd] in *.
+    exists k, v. repeat split; auto. }
+  assert (Hrest : forall f, In f rest -> exists k v, f = F (lower_bytes k) v /\
+            token_ok k = true /\ value_ok v = true /\ mem (lower_bytes k) conn_specific = false /\
+            (lower_bytes k = n_te -> v = v_trailers) /\
+            (lower_bytes k = n_content_length -> exists c, parse_uint63 v = Some c)).
+  { intros f Hf. apply Hraw. eapply keep_first_cl_in; eauto. }
   assert (Hnp : Forall (fun f => ~ pseudo f) rest).
-  { apply Forall_forall. intros f Hf. destruct (Hrest f Hf) as (k & vs & v & _ & _ & -> & Ht & _). apply lowered_not_pseudo; auto. }
+  { apply Forall_forall. intros f Hf. destruct (Hrest f Hf) as (k & v & -> & Ht & _). apply lowered_not_pseudo; auto. }
+  assert (Hclf : forall f, In f ([F (bs ":status") (itoa status)] ++ rest) -> is_cl f ->
+                 In f rest /\ numeric (fvalue f) /\ dec_value (fvalue f) < 2 ^ 63).
+  { intros f [<-|Hf] Hc; [vm_compute in Hc; discriminate|]. cbn [app] in Hf. split; auto.
+    destruct (Hrest f Hf) as (k & v & -> & _ & _ & _ & _ & Hcl). cbn [fvalue].
+    destruct (Hcl Hc) as [c Hp]. apply parse_uint63_spec in Hp as (Hn & _ & Hlt). auto. }
   assert (Hwf : WF false lim (rsp_fields status h) /\ cl_fits (rsp_fields status h)).
   { rewrite Hfs. split; [unfold WF; split; [|split; [|split; [|split]]]|].
     - apply Forall_app. split; [constructor; [apply status_field_wf; auto|constructor]|].
-      apply Forall_forall. intros f Hf. destruct (Hrest f Hf) as (k & vs & v & _ & _ & -> & Ht & Hv & Hc & Hte).
+      apply Forall_forall. intros f Hf. destruct (Hrest f Hf) as (k & v & -> & Ht & Hv & Hc & Hte & _).
       apply lowered_field_wf; auto.
     - apply pseudo_first_app; auto. constructor; [exists (bs "status"); reflexivity|constructor].
     - apply pseudo_unique_app; auto. cbn. constructor; [intros []|constructor].
-    - assert (Hcls : forall f, In f ([F (bs ":status") (itoa status)] ++ rest) -> is_cl f -> fvalue f = c).
-      { intros f [<-|Hf] Hc; [vm_compute in Hc; discriminate|]. cbn [app] in Hf.
-        destruct (Hrest f Hf) as (k & vs & v & Hin & Hv & -> & _). eapply Hcl; eauto. }
-      split.
-      + intros f Hf Hc. rewrite (Hcls f Hf Hc). auto.
-      + intros f g Hf Hg Hcf' Hcg. rewrite (Hcls f Hf Hcf'), (Hcls g Hg Hcg). reflexivity.
+    - split.
+      + intros f Hf Hc. apply Hclf; auto.
+      + intros f g Hf Hg Hcf Hcg. destruct (Hclf f Hf Hcf) as [Hf' _]. destruct (Hclf g Hg Hcg) as [Hg' _].
+        rewrite (keep_first_cl_single raw f g Hf' Hg' Hcf Hcg). reflexivity.
     - rewrite <- Hfs. exact Hsz.
-    - intros f [<-|Hf] Hc; [vm_compute in Hc; discriminate|]. cbn [app] in Hf.
-      destruct (Hrest f Hf) as (k & vs & v & Hin & Hv & -> & _). cbn [fvalue].
-      rewrite (Hcl _ _ _ Hin Hc Hv). auto. }
+    - intros f Hf Hc. apply Hclf; auto. }
   destruct Hwf as [Hwf Hfit].
   unfold updateResponseFromHeaders. rewrite (parseHeaders_complete _ _ _ Hwf Hfit).
   unfold response_of. rewrite hdr_of_ps. unfold pseudos_of. cbn [sStatus].
@@ -681,21 +739,19 @@ Lemma ex_req_emitted :
      mk "content-length" "5"; mk "accept-encoding" "gzip"; F (bs "user-agent") (hx h3DefaultUserAgent)].
 Proof. vm_compute. reflexivity. Qed.
 
+(** a handler map without any hygiene: empty / contradicting / non-numeric Content-Length under two
+    spellings, a value with LF, a name with a space, a connection-specific field *)
+Definition ex_rsp_dirty : gomap :=
+  [(bs "Content-Length", [[]; bs "5"; bs "6"]); (bs "X-A", [bs "ok"; bs "a" ++ [10] ++ bs "b"]); (bs "X A", [bs "v"]);
+   (bs "content-length", [bs "abc"]); (bs "Connection", [bs "close"])].
+
 Lemma ex_rsp_ok :
-  rsp_hdr_ok [(bs "Content-Type", [bs "text/plain"]); (bs "Connection", [bs "close"]); (bs "Content-Length", [bs "5"])] /\
-  rsp_cl_ok [(bs "Content-Type", [bs "text/plain"]); (bs "Connection", [bs "close"]); (bs "Content-Length", [bs "5"])] /\
-  rsp_fields 200 [(bs "Content-Type", [bs "text/plain"]); (bs "Connection", [bs "close"]); (bs "Content-Length", [bs "5"])] =
-  [mk ":status" "200"; mk "content-type" "text/plain"; mk "content-length" "5"].
-Proof.
-  split; [|split; [|vm_compute; reflexivity]].
-  - intros k vs Hin _. repeat (destruct Hin as [Hin|Hin]; [inversion Hin; subst; split; [vm_compute; reflexivity|repeat constructor]|]). contradiction.
-  - exists (bs "5"). split; [split; [discriminate|repeat constructor; vm_compute; discriminate]|]. split; [vm_compute; reflexivity|].
-    intros k vs v Hin Hk Hv.
-    repeat (destruct Hin as [Hin|Hin]; [inversion Hin; subst; try (vm_compute in Hk; discriminate); destruct Hv as [<-|[]]; reflexivity|]).
-    contradiction.
-Qed.
+  rsp_fields 200 ex_rsp_dirty = [mk ":status" "200"; mk "content-length" "5"; mk "x-a" "ok"] /\
+  exists r, updateResponseFromHeaders 65536 (rsp_fields 200 ex_rsp_dirty) false = inr r /\ rsCode r = 200 /\ rsCL r = 5.
+Proof. split; [vm_compute; reflexivity|]. eexists. split; [vm_compute; reflexivity|]. split; reflexivity. Qed.
 
 Lemma ex_trailers :
-  write_trailers [(bs "X-Checksum", [bs "abc"]); (bs "Upgrade", [bs "x"]); (bs "X-Empty", [])] = Some [mk "x-checksum" "abc"] /\
-  write_trailers [(bs "X-Checksum", []); (bs "Upgrade", [bs "x"]); (bs "Content-Length", [bs "5"])] = None.
+  write_trailers [(bs "X-Checksum", [bs "abc"; bs "a" ++ [10] ++ bs "b"]); (bs "Upgrade", [bs "x"]); (bs "X T", [bs "v"]); (bs "X-Empty", [])]
+    = Some [mk "x-checksum" "abc"] /\
+  write_trailers [(bs "X-Checksum", [[0]]); (bs "Upgrade", [bs "x"]); (bs "Content-Length", [bs "5"]); (bs "X-Nil", [])] = None.
 Proof. split; vm_compute; reflexivity. Qed.
